@@ -30,8 +30,9 @@ namespace
 struct ledger_t
 {
   std::map<void *, std::size_t> live;
+  std::map<void *, int> arena_of; // which allocator instance (arena) handed the block out
   std::uint64_t allocs = 0, frees = 0, bytes = 0;
-  unsigned bad_dealloc = 0, zero_alloc = 0;
+  unsigned bad_dealloc = 0, zero_alloc = 0, wrong_arena = 0;
 };
 ledger_t *g_ledger = nullptr;
 long g_fail_alloc = 0; // > 0: the g_fail_alloc-th allocation from now on throws std::bad_alloc
@@ -40,9 +41,12 @@ template <class T>
 struct ledger_alloc
 {
   using value_type = T;
+  // allocator instances with different arena numbers are NOT interchangeable: a block goes back to the arena it came from
+  int arena = 0;
   ledger_alloc() = default;
+  explicit ledger_alloc(int a) : arena(a) {}
   template <class U>
-  ledger_alloc(ledger_alloc<U> const &)
+  ledger_alloc(ledger_alloc<U> const &o) : arena(o.arena)
   {
   }
   T *allocate(std::size_t n)
@@ -53,6 +57,7 @@ struct ledger_alloc
     if (g_ledger)
     {
       g_ledger->live[p] = n;
+      g_ledger->arena_of[p] = arena;
       ++g_ledger->allocs;
       g_ledger->bytes += n * sizeof(T);
     }
@@ -71,13 +76,16 @@ struct ledger_alloc
         else
           return; // unknown pointer: do not pass it to the real allocator
       }
+      if (g_ledger->arena_of[p] != arena)
+        ++g_ledger->wrong_arena;
+      g_ledger->arena_of.erase(p);
       g_ledger->live.erase(p);
       ++g_ledger->frees;
     }
     std::allocator<T>{}.deallocate(p, n);
   }
-  bool operator==(ledger_alloc const &) const { return true; }
-  bool operator!=(ledger_alloc const &) const { return false; }
+  bool operator==(ledger_alloc const &o) const { return arena == o.arena; }
+  bool operator!=(ledger_alloc const &o) const { return arena != o.arena; }
 };
 
 
@@ -853,8 +861,10 @@ void buffer_histories(std::uint64_t total)
     {
       std::size_t w0 = g.below(6);
       vf::extend_case(" ctor(%zu)", w0);
-      B b(w0);
-      B b2(0);
+      // two buffers on different arenas (allocator instances that are not interchangeable): swapped and move-assigned
+      // buffers, and the raw_vector a buffer is converted into, return every block to the arena it came from
+      B b(w0, ledger_alloc<T>(1));
+      B b2(0, ledger_alloc<T>(2));
       std::vector<T> model, model2;
       std::size_t wsize = w0, wsize2 = 0;
       bool released = false;
@@ -1068,6 +1078,11 @@ void buffer_histories(std::uint64_t total)
       vf::note_distinct(vf::hash_str(vf::current_case()));
     }
     g_ledger = nullptr;
+    if (led.wrong_arena)
+      vf::violation(e + "/ledger/block-returned-to-another-arena", "mismatch",
+                    std::to_string(led.wrong_arena) + " block(s) were deallocated through an allocator instance that does not compare equal to the one that allocated them");
+    else
+      VF_COUNT("buf/ledger/two-arenas-balanced");
     if (!led.live.empty())
       vf::violation(e + "/ledger/leak", "mismatch", std::to_string(led.live.size()) + " allocation(s) still live");
     if (led.bad_dealloc)
